@@ -35,14 +35,102 @@ Proof.
   intros v Hv. apply (forall_range_spec _ _ _ H). split; [apply N.le_0_l | exact Hv].
 Qed.
 
-(* every Unicode scalar value, printed by the escaper (escaped or not), followed by the closing quote,
-   is read back by the lexer as exactly that character *)
-Definition char_ok (c : N) : bool :=
-  negb (is_scalar c) ||
-  (sres_is (lex_string (esc_char (fun _ => true) c ++ [34]) 1 0 []) [c] &&
-   sres_is (lex_string (esc_char (fun _ => false) c ++ [34]) 1 0 []) [c]).
-Lemma escape_char_roundtrip_all : forall c, c < 1114112 -> char_ok c = true.
+(* ---- the string lexer on the shapes the escaper prints -------------------------------------------------- *)
+(* a character that is neither the quote nor the backslash is copied *)
+Lemma lex_plain : forall c t pos start acc, c <> 34 -> c <> 92 ->
+  lex_string (c :: t) pos start acc = lex_string t (pos + 1) start (c :: acc).
 Proof.
-  assert (H : forall_range char_ok 0 1114112 = true) by (vm_compute; reflexivity).
-  intros c Hc. apply (forall_range_spec _ _ _ H). split; [apply N.le_0_l | exact Hc].
+  intros c t pos start acc H34 H92.
+  destruct c as [|p]; [reflexivity|].
+  do 7 (try (destruct p as [p|p|]; try reflexivity)); exfalso; (apply H34; reflexivity) || (apply H92; reflexivity).
 Qed.
+Lemma lex_u_single : forall a b c d r pos start acc v, hex4val a b c d = Some v ->
+  (55296 <=? v) && (v <=? 57343) = false -> is_scalar v = true ->
+  lex_string (92 :: 117 :: a :: b :: c :: d :: r) pos start acc = lex_string r (pos + 6) start (v :: acc).
+Proof. intros a b c d r pos start acc v H1 H2 H3. cbn [lex_string]. rewrite H1, H2, H3. reflexivity. Qed.
+Lemma lex_u_pair : forall a b c d a2 b2 c2 d2 r pos start acc hi lo,
+  hex4val a b c d = Some hi -> hex4val a2 b2 c2 d2 = Some lo ->
+  (55296 <=? hi) && (hi <=? 57343) = true ->
+  (65536 + (hi - 55296) * 1024 + lo <? 56320) = false ->
+  is_scalar (65536 + (hi - 55296) * 1024 + lo - 56320) = true ->
+  lex_string (92 :: 117 :: a :: b :: c :: d :: 92 :: 117 :: a2 :: b2 :: c2 :: d2 :: r) pos start acc =
+  lex_string r (pos + 6 + 6) start ((65536 + (hi - 55296) * 1024 + lo - 56320) :: acc).
+Proof.
+  intros a b c d a2 b2 c2 d2 r pos start acc hi lo H1 H2 H3 H4 H5. cbn [lex_string].
+  rewrite H1, H3, H2. cbv zeta. rewrite H4, H5. reflexivity.
+Qed.
+
+Lemma hex4_val : forall v, v < 65536 ->
+  hex4val (hexdigit (v / 4096)) (hexdigit ((v / 256) mod 16)) (hexdigit ((v / 16) mod 16)) (hexdigit (v mod 16)) = Some v.
+Proof.
+  intros v Hv. pose proof (hex4_roundtrip_all v Hv) as H. unfold hex4_ok, hex4 in H.
+  destruct (hex4val _ _ _ _) as [v'|]; [|discriminate]. apply N.eqb_eq in H. congruence.
+Qed.
+
+Lemma is_scalar_spec : forall c, is_scalar c = true <-> c < 55296 \/ (57343 < c /\ c < 1114112).
+Proof.
+  intro c; unfold is_scalar. rewrite orb_true_iff, andb_true_iff, !N.ltb_lt. tauto.
+Qed.
+
+(* one character: whatever the escaper prints for a scalar value c is consumed by the lexer, which
+   appends exactly c and continues with the rest of the text *)
+Lemma lex_esc_char : forall f c t pos start acc, is_scalar c = true ->
+  exists k, lex_string (esc_char f c ++ t) pos start acc = lex_string t (pos + k) start (c :: acc).
+Proof.
+  intros f c t pos start acc Hs. unfold esc_char.
+  destruct (c =? 92) eqn:E1; [apply N.eqb_eq in E1; subst; exists 2; reflexivity|].
+  destruct (c =? 10) eqn:E2; [apply N.eqb_eq in E2; subst; exists 2; reflexivity|].
+  destruct (c =? 13) eqn:E3; [apply N.eqb_eq in E3; subst; exists 2; reflexivity|].
+  destruct (c =? 9) eqn:E4; [apply N.eqb_eq in E4; subst; exists 2; reflexivity|].
+  destruct (c =? 8) eqn:E5; [apply N.eqb_eq in E5; subst; exists 2; reflexivity|].
+  destruct (c =? 12) eqn:E6; [apply N.eqb_eq in E6; subst; exists 2; reflexivity|].
+  destruct (c =? 34) eqn:E7; [apply N.eqb_eq in E7; subst; exists 2; reflexivity|].
+  apply N.eqb_neq in E1. apply N.eqb_neq in E7.
+  apply is_scalar_spec in Hs.
+  destruct (f c).
+  - destruct (c <? 65536) eqn:E8.
+    + apply N.ltb_lt in E8. exists 6. unfold hex4. cbn [app].
+      apply lex_u_single; [apply hex4_val; exact E8 | | apply is_scalar_spec; exact Hs].
+      apply andb_false_iff. destruct Hs as [Hs|[Hs _]]; [left; apply N.leb_gt; exact Hs | right; apply N.leb_gt; exact Hs].
+    + apply N.ltb_ge in E8. exists (6 + 6). cbv zeta. unfold hex4. cbn [app].
+      set (v := c - 65536).
+      assert (Hv : v < 1048576) by (unfold v; lia).
+      pose proof (N.div_mod v 1024 ltac:(discriminate)) as Hdm.
+      pose proof (N.mod_lt v 1024 ltac:(discriminate)) as Hml.
+      assert (Hq : v / 1024 < 1024) by (apply N.div_lt_upper_bound; [discriminate | lia]).
+      set (hi := 55296 + v / 1024) in *. set (lo := 56320 + v mod 1024) in *.
+      assert (Hval : 65536 + (hi - 55296) * 1024 + lo - 56320 = c) by (unfold hi, lo, v in *; lia).
+      rewrite (lex_u_pair _ _ _ _ _ _ _ _ t pos start acc hi lo).
+      * rewrite Hval, N.add_assoc. reflexivity.
+      * apply hex4_val. unfold hi; lia.
+      * apply hex4_val. unfold lo; lia.
+      * apply andb_true_iff; split; apply N.leb_le; unfold hi; lia.
+      * apply N.ltb_ge. unfold hi, lo; lia.
+      * rewrite Hval. apply is_scalar_spec. lia.
+  - exists 1. cbn [app]. apply lex_plain; assumption.
+Qed.
+
+(* whole strings: lexing the printed body followed by the closing quote yields the string *)
+Lemma lex_esc_string : forall f s rest pos start acc, Forall (fun c => is_scalar c = true) s ->
+  exists e, lex_string (flat_map (esc_char f) s ++ 34 :: rest) pos start acc = SOk (rev acc ++ s) e.
+Proof.
+  intros f s; induction s as [|c s IH]; intros rest pos start acc Hs.
+  - exists (pos + 1). cbn. rewrite app_nil_r. reflexivity.
+  - inversion Hs as [|? ? Hc Hs']; subst. cbn [flat_map]. rewrite <- app_assoc.
+    destruct (lex_esc_char f c (flat_map (esc_char f) s ++ 34 :: rest) pos start acc Hc) as [k Hk].
+    rewrite Hk. destruct (IH rest (pos + k) start (c :: acc) Hs') as [e He]. exists e. rewrite He.
+    cbn [rev]. rewrite <- app_assoc. reflexivity.
+Qed.
+
+(* unescape (escape s) = s *)
+Theorem string_roundtrip : forall f s, Forall (fun c => is_scalar c = true) s ->
+  exists e, lex_string_literal (escape f s) = SOk s e.
+Proof.
+  intros f s Hs. unfold lex_string_literal, escape.
+  destruct (lex_esc_string f s [] 1 0 [] Hs) as [e He]. exists e. exact He.
+Qed.
+(* ... also when more text follows the literal *)
+Theorem string_roundtrip_in_context : forall f s rest, Forall (fun c => is_scalar c = true) s ->
+  exists e, lex_string (flat_map (esc_char f) s ++ 34 :: rest) 1 0 [] = SOk s e.
+Proof. intros f s rest Hs. exact (lex_esc_string f s rest 1 0 [] Hs). Qed.
+
